@@ -1,5 +1,6 @@
 """C09 - pose composition is the rigid-motion group (engine E1: exhaustive over finite pose alphabets)."""
 import itertools
+import math
 from fractions import Fraction
 
 import numpy as np
@@ -89,8 +90,13 @@ def _deltas(kind, tier, seed):
         if tier == "thorough":
             n = 1 - 1e-12
             out.append([1.0, 0.0, 0.0, 0.0, n, 0.0])
+    if kind in ("R2", "R3"):
+        out.append([1.0, -2.0, 3.0][:c])
+    if kind == "SE3":
+        out.append([1.0, 0.0, -2.0, 0.0, 0.0, 0.0])
     if kind == "SE2":
         out.append([1.0, -2.0, 3.0])
+        out.append([1.0, 0.0, 0.0])
         out.append([0.0, 0.0, A.PI])
         out.append([0.5, 0.5, 10.0])  # more than one full turn
         out.append([0.0, 0.0, -7.5])
@@ -110,6 +116,7 @@ def chunks(tier, seed):
         out.append(("point", kind, 0))
         out.append(("unary", kind, 0))
         out.append(("boxplus", kind, 0))
+        out.append(("chain", kind, 0))
         m = len(_thin(kind, tier, seed))
         for i in range(m):
             out.append(("triple", kind, i))
@@ -148,6 +155,13 @@ def run_chunk(chunk, tier, seed):
         for a in _alpha(kind, tier, seed):
             for d in _deltas(kind, tier, seed):
                 _do(acc, {"t": "boxplus", "kind": kind, "a": a, "d": d}, not _trivial(kind, a) and any(d))
+    elif typ == "chain":
+        # results fed back in: x_{k+1} = x_k (+) b (and b (+) x_k, x_k [+] delta) for 200 steps, every step against the reference
+        ps = _thin(kind, tier, seed)
+        for a in ps[:6]:
+            for b in ps[:6]:
+                for mode in ("right", "left", "box"):
+                    _do(acc, {"t": "chain", "kind": kind, "a": a, "b": b, "mode": mode, "steps": 200}, not _trivial(kind, b))
     elif typ == "triple":
         ps = _thin(kind, tier, seed)
         a = ps[i]
@@ -404,6 +418,42 @@ def _eval_inner(case, c):
         # (a (+) b) (-) (c (+) b)... right-cancellation: (a(+)c) (-) (b(+)c)  has no simple law; use left: (c(+)a) (-) (c(+)b) = a (-) b
         c.phys("(c(+)a)(-)(c(+)b) = a(-)b", kind, (pc + pa) - (pc + pb), I.comps(pa - pb), sc * 2)
         return
+    if t == "chain":
+        pb = I.mk_pose(kind, case["b"])
+        b = _stored(pb)
+        x, ref = pa, list(a)
+        # keep translations bounded: the step is b with its translation scaled into the unit box
+        tb = [v / (1.0 + max(abs(w) for w in b[: G.DIM[kind]])) for v in b[: G.DIM[kind]]]
+        b = tb + b[G.DIM[kind] :]
+        pb = I.mk_pose(kind, b)
+        b = _stored(pb)
+        dlt = G.compact(kind, b)
+        if kind == "SE3" and b[6] < 0:
+            dlt = None  # compact form of a w < 0 quaternion is the other hemisphere's pose: no boxplus chain for it
+        for k in range(case["steps"]):
+            if case["mode"] == "right":
+                x = x + pb
+                ref = G.compose(kind, ref, b)
+            elif case["mode"] == "left":
+                x = pb + x
+                ref = G.compose(kind, b, ref)
+            else:
+                if dlt is None:
+                    break
+                x = x + np.array(dlt, dtype=float)
+                ref = G.compose(kind, ref, G.exp_compact(kind, dlt))
+            if kind == "SE3":
+                nrm = math.sqrt(sum(v * v for v in ref[3:]))
+                ref = ref[:3] + [v / nrm for v in ref[3:]]  # the reference stays on the unit sphere
+            scl = 1.0 + sum(abs(v) for v in ref[: G.DIM[kind]])
+            c.nops += 1
+            d_ = G.phys_diff(kind, I.comps(x), ref)
+            r_ = d_ / (1e-12 * (k + 1) * scl + TOL * 1e-3)
+            c.ratio = max(c.ratio, r_)
+            if not r_ <= 1.0:
+                c.msgs.append("chain %s, step %d: result differs from the reference product by %.3g (> %.3g); impl=%r ref=%r" % (case["mode"], k + 1, d_, 1e-12 * (k + 1) * scl + TOL * 1e-3, I.comps(x), ref))
+                break
+        return
     if t == "boxplus":
         d = case["d"]
         sc = 1.0 + sum(abs(x) for x in a[: G.DIM[kind]]) + sum(abs(x) for x in d[: G.DIM[kind]])
@@ -420,6 +470,13 @@ def _eval_inner(case, c):
             c.msgs.append("boxplus mutated its operand")
         if darr.tolist() != [float(x) for x in d]:
             c.msgs.append("boxplus mutated the increment array")
+        # increments given as integer / single-precision arrays (values exactly representable there) are the same increments
+        if all(float(x) == int(x) for x in d):
+            for dt in (np.int64, np.int32, np.float32):
+                c.phys("p [+] delta with a %s increment array" % np.dtype(dt).name, kind, pa + np.array(d, dtype=dt), exp, sc)
+                q2 = pa.copy()
+                q2 += np.array(d, dtype=dt)
+                c.phys("p += delta with a %s increment array" % np.dtype(dt).name, kind, q2, exp, sc)
         if kind == "SE3":
             # outside the documented domain (|delta_r| > 1) the value is not judged, but operands must still not be mutated
             big = np.array([0.1, 0.2, 0.3, 0.9, -0.8, 0.7])
